@@ -2,7 +2,7 @@
    owner.  Only statements, [exact], and [Print Assumptions]. *)
 From Coq Require Import String.
 From Martian Require Import Lib.Bytes Extracted.Journal K.ForkName K.Journal
-  Proofs.ForkName Proofs.Journal Proofs.JournalParse K.Attempt Proofs.Attempt.
+  Proofs.ForkName Proofs.ForkNameEmpty Proofs.Journal Proofs.JournalParse K.Attempt Proofs.Attempt.
 
 (* Distinct map keys have distinct safe (percent-encoded) forms: all keys,
    any bytes. *)
@@ -44,6 +44,42 @@ Proof.
       (eq_ind_r (fun x => fork_id qs = Some x) E2 (journal_encode_inj_lemma s t E3))).
 Qed.
 Print Assumptions C11_fork_journal_token_inj.
+
+(* The same with empty inner collections (a part whose range has length 0:
+   one fork, identified by the indices above it): two forks of one call with
+   the same id string agree on every index and key up to and including their
+   first empty part.  (Stating this found a defect: the code returned the
+   default id for an empty collection at accumulated index 0 even behind an
+   already written enclosing index - C11_empty_default_id_refuted_before_fix
+   below is the witness, replayed on mrp and repaired.) *)
+Theorem C11_fork_id_inj_with_empty : forall ps qs s,
+  sib ps qs -> Forall wf_part_e ps -> Forall wf_part_e qs ->
+  fork_id ps = Some s -> fork_id qs = Some s -> ids_upto_empty ps = ids_upto_empty qs.
+Proof. exact fork_id_inj_empty_lemma. Qed.
+Print Assumptions C11_fork_id_inj_with_empty.
+
+(* the two forks (0,0,empty) and (1,0,empty) of a call nested three deep: well
+   formed siblings, which the repaired code names fork0_fork0 and fork1_fork0
+   (before the repair both were fork0) *)
+Example C11_fork_id_inj_with_empty_nonvacuous :
+  let ps := fst fork_go_empty_bug_witness in
+  let qs := snd fork_go_empty_bug_witness in
+  sib ps qs /\ Forall wf_part_e ps /\ Forall wf_part_e qs /\
+  ids_upto_empty ps <> ids_upto_empty qs /\
+  fork_id ps = Some (bs "fork0_fork0") /\ fork_id qs = Some (bs "fork1_fork0").
+Proof.
+  cbv zeta. split.
+  { constructor; [repeat split| |reflexivity]. intro H. vm_compute in H. discriminate. }
+  split.
+  { constructor; [left; split; [reflexivity|discriminate]|].
+    constructor; [left; split; [reflexivity|discriminate]|].
+    constructor; [right; repeat split; discriminate|constructor]. }
+  split.
+  { constructor; [left; split; [reflexivity|discriminate]|].
+    constructor; [left; split; [reflexivity|discriminate]|].
+    constructor; [right; repeat split; discriminate|constructor]. }
+  split; [vm_compute; discriminate|]. vm_compute. split; reflexivity.
+Qed.
 
 (* getFork: for every order of the fork list (static or after dynamic
    expansion) with pairwise distinct tokens, the fork found for a token is
